@@ -47,6 +47,58 @@ def determinism_graph(pids, seeds, runs, nworkers=16):
     return ok, report
 
 
+def _hist_traces(pid, seed, runs, hashseed, tier="quick"):
+    import shutil
+    import tempfile
+    from . import hist_main
+    scratch = tempfile.mkdtemp(prefix="verif-selftest-")
+    try:
+        env = {"PYTHONHASHSEED": str(hashseed), "VERIF_REPLAY_DIR": os.path.join(scratch, "replays")}
+        if pid == "C11":
+            res = orchestrator.run_workers(
+                "dst.worker_hist", [hist_main._argv(pid, "ref", seed, tier, w, 0, scratch, {}) for w in range(hist_main.NWORKERS)],
+                wall_timeout=1500, extra_env=env)
+            errs = orchestrator.harness_errors(res)
+            if errs:
+                raise RuntimeError("; ".join(errs))
+            refs = {str(m["entry"]): {"digest": m["digest"], "kind": m["kind"]} for r in res for m in r.msgs if m.get("t") == "ref"}
+            with open(os.path.join(scratch, "refs.json"), "w") as f:
+                json.dump(refs, f)
+        res = orchestrator.run_workers(
+            "dst.worker_hist", [hist_main._argv(pid, "hist", seed, tier, w, 0, scratch, {}, runs, ["--max-violations", 0])
+                                for w in range(hist_main.NWORKERS)], wall_timeout=3000, extra_env=env)
+        errs = orchestrator.harness_errors(res)
+        if errs:
+            raise RuntimeError("; ".join(errs))
+        out = {}
+        calls = 0
+        for r in res:
+            for m in r.msgs:
+                if m.get("t") == "summary":
+                    calls += m["agg"]["calls"]
+                    for h, tr in m["traces"]:
+                        out[h] = tr
+        return out, calls
+    finally:
+        shutil.rmtree(scratch, ignore_errors=True)
+
+
+def determinism_hist(pids, seeds, runs):
+    ok = True
+    report = []
+    for pid in pids:
+        for seed in seeds:
+            a, calls = _hist_traces(pid, seed, runs, 0)
+            b, _ = _hist_traces(pid, seed, runs, 0)
+            c, _ = _hist_traces(pid, seed, runs, 4242)
+            line = {"property": pid, "seed": seed, "histories": len(a), "calls": calls,
+                    "same_twice_hashseed0": a == b, "same_under_hashseed4242": a == c}
+            ok &= (a == b) and (a == c)
+            report.append(line)
+            print("selftest determinism", json.dumps(line))
+    return ok, report
+
+
 def sensitivity(only=None, tier="quick", patch_dir=None, keep_going=True):
     """Break the property on purpose in a scratch worktree (outside /repo and /verif),
     run the registered quick check against it, require exit 1; remove the worktree."""
@@ -122,6 +174,9 @@ def main(a):
         runs = 48 if a.size == "small" else 400
         seeds = [11] if a.size == "small" else [11, 12, 13]
         ok, report = determinism_graph(pids, seeds, runs)
+        ok2, report2 = determinism_hist(["C10", "C11"], seeds[:1], 16 if a.size == "small" else 48)
+        ok = ok and ok2
+        report = report + report2
         os.makedirs(os.path.join(orchestrator.VERIF, "evidence"), exist_ok=True)
         with open(os.path.join(orchestrator.VERIF, "evidence", "selftest_determinism.json"), "w") as f:
             json.dump({"ok": ok, "report": report, "wall_s": round(time.monotonic() - t0, 1)}, f, indent=1)
